@@ -297,6 +297,40 @@ def check_pair(sname, lname, damp, nb, res):
                 a1 = frclim.calcAM(S, freq, fs=ode.FreqDirect(*src))
                 a2 = frclim.calcAM(S, freq, fs=ode.SolveUnc(*src, pre_eig=True))
             res.ev("calcAM/routes/nb%d/%s" % (nb, damp))
+            # one solver object used for two frequency vectors of equal length and equal end points (different interior)
+            try:
+                with warnings.catch_warnings():
+                    warnings.simplefilter("ignore")
+                    fB = freq.copy()
+                    if len(fB) > 2:
+                        fB[1:-1] = np.sqrt(freq[:-2] * freq[2:]) * 1.07
+                    for mk in (lambda: ode.SolveUnc(*src, pre_eig=True), lambda: ode.FreqDirect(*src)):
+                        fs1 = mk()
+                        frclim.calcAM(S, freq, fs=fs1)
+                        got = frclim.calcAM(S, fB, fs=fs1)
+                        want = frclim.calcAM(S, fB, fs=mk())
+                        if not np.array_equal(got, want):
+                            msgs.append((dict(part="pair", src=sname, load=lname, damp=damp, bs=bs, bl=bl, fsreuse=True),
+                                         "calcAM with one %s object used for a second frequency vector (same length and end points) differs from a fresh solver object: max rel diff %.3g"
+                                         % (type(fs1).__name__, np.abs(got - want).max() / np.abs(want).max()), "fsreuse"))
+            except Exception as e:  # noqa
+                msgs.append((dict(part="pair", src=sname, load=lname, damp=damp, bs=bs, bl=bl, fsreuse=True), "calcAM with a reused solver object raised %r" % (e,), "fsreuse-raise"))
+            # free acceleration given as a REAL-typed array (a specification curve): same result as the complex-typed array
+            try:
+                with warnings.catch_warnings():
+                    warnings.simplefilter("ignore")
+                    Asr = np.abs(refs[-1][0]) + 0.5
+                    r1 = frclim.ntfl(S, form_inputs(load, bl, "drm"), Asr.astype(complex), freq)
+                    r2 = frclim.ntfl(S, form_inputs(load, bl, "drm"), Asr.copy(), freq)
+                    r3 = frclim.ntfl(S, form_inputs(load, bl, "drm"), np.round(Asr * 8).astype(np.int64) if False else Asr.tolist(), freq)
+                for nm_ in ("A", "F"):
+                    if not (np.array_equal(getattr(r1, nm_), getattr(r2, nm_)) and np.array_equal(getattr(r1, nm_), np.asarray(getattr(r3, nm_)))):
+                        msgs.append((dict(part="pair", src=sname, load=lname, damp=damp, bs=bs, bl=bl, realAs=True),
+                                     "ntfl with the free acceleration given as a real-typed array / nested list: %s differs from the complex-typed array with the same values (max diff %.3g)"
+                                     % (nm_, np.abs(np.asarray(getattr(r2, nm_)) - getattr(r1, nm_)).max()), "realAs"))
+                        break
+            except Exception as e:  # noqa
+                msgs.append((dict(part="pair", src=sname, load=lname, damp=damp, bs=bs, bl=bl, realAs=True), "ntfl with a real-typed free acceleration raised %r" % (e,), "realAs-raise"))
             sc = np.abs(a0).max(axis=(0, 2))
             tr = tolv.max()
             if (np.abs(a1 - a0).max(axis=(0, 2)) / sc / tolv).max() > 1 or (np.abs(a2 - a0).max(axis=(0, 2)) / sc / tolv).max() > 1:
